@@ -9,13 +9,13 @@
 From Coq Require Import List Bool.
 Import ListNotations.
 
-Inductive tycon := TProd | TWork | TCons | TAProd | TAWork | TACons | TDet | TADet.
+Inductive tycon := TProd | TWork | TCons | TAProd | TAWork | TACons | TDet | TADet | TFut.
 Inductive trait := TrSend | TrSync.
 
 Definition tycon_eqb (a b : tycon) : bool :=
   match a, b with
   | TProd, TProd | TWork, TWork | TCons, TCons | TAProd, TAProd | TAWork, TAWork | TACons, TACons
-  | TDet, TDet | TADet, TADet => true
+  | TDet, TDet | TADet, TADet | TFut, TFut => true
   | _, _ => false
   end.
 Definition trait_eqb (a b : trait) : bool := match a, b with TrSend, TrSend | TrSync, TrSync => true | _, _ => false end.
@@ -70,6 +70,14 @@ Definition is_sync (t : wty) : bool :=
   | Det i => holds TrSync TDet (holds TrSend (plain_con i) false)
   | ADet i => holds TrSync TADet (holds TrSend (async_con i) false)
   end.
+(** the future returned by an async operation ([MRBFuture]) holds [&mut I] (and the operation's parameter): without an explicit impl
+    it is Send at most when its iterator is, and never Sync; with an explicit impl the impl's bounds decide *)
+Definition has_fut_clause (tr : trait) : bool :=
+  existsb (fun cl => tycon_eqb (cl_type cl) TFut && trait_eqb (cl_trait cl) tr) cls.
+Definition fut_send (t : wty) : bool :=
+  if has_fut_clause TrSend then holds TrSend TFut (is_send t) else is_send t.
+Definition fut_sync (t : wty) : bool :=
+  if has_fut_clause TrSync then holds TrSync TFut (is_send t) else is_sync t.
 End S.
 
 Definition all_wty : list wty :=
@@ -80,3 +88,7 @@ Definition bools := [true; false].
 Definition c16_ok (cls : list clause) : bool :=
   forallb (fun t => forallb (fun c => forallb (fun s => forallb (fun y =>
     implb (is_send cls c s y t) (c && s) && negb (is_sync cls c s y t)) bools) bools) bools) all_wty.
+
+Definition c16_fut_ok (cls : list clause) : bool :=
+  forallb (fun t => forallb (fun c => forallb (fun s => forallb (fun y =>
+    implb (fut_send cls c s y t) (c && s) && negb (fut_sync cls c s y t)) bools) bools) bools) all_wty.
